@@ -39,6 +39,14 @@ order are *data choice points* unless stated otherwise):
   ka    keep-alive histories on one HTTP/1.1 connection: k in {0,1,2} ordinary requests, then the upgrade, with
         keep_alive_max_requests in {k, k+1, k+2} (the upgrade is beyond / exactly at / one before the limit) x accept
         {plain, subprotocol, extra headers}, client offers subprotocols + permessage-deflate; one message, client Close.
+  cfg   configuration axis (scenarios whose last parameter is "cfg:<configuration>/<spelling>", HTTP/1.1 carrier): a
+        sub-product of hs1 (Upgrade {websocket, WebSocket, foo, "websocket, foo"} x Connection {Upgrade, upgrade,
+        keep-alive, "keep-alive, Upgrade"} x every key / version / method / HTTP version) under h11_pass_raw_headers = True
+        with the client writing the field names as the RFCs print them / all lower case / all upper case; the plain
+        Upgrade: websocket row also under server_names = [the handshake's host] and under both; ka under raw headers; off
+        (all offer header variants) under raw headers and raw headers + server_names (upper-case names); dec (every
+        program of <= 2 sends, client offers subprotocols + permessage-deflate) under raw headers and raw headers +
+        server_names (lower-case names).  Same reference verdicts and rendering demands as under the default.
 
 Oracle (reference: mc/x_c10c11_ref.py - RFC 6455 4.2.1 validity predicate, accept token via hashlib, ASGI decision
 automaton; no hypercorn code):
@@ -78,7 +86,8 @@ from mc.x_c10c11_run import (GuardClient, case_execute, make_window_client, nego
 
 ID = "C11"
 LEVEL = "model_checking"
-TECHNIQUE = ("bounded exhaustive enumeration of handshakes (header product), of application decision sequences "
+TECHNIQUE = ("bounded exhaustive enumeration of handshakes (header product; a sub-product again under raw header names / "
+             "server_names with the field names in RFC, lower and upper case), of application decision sequences "
              "(generated from the ASGI reference automaton) and of closing orders - including closing events that arrive "
              "while the handshake response, or the application's own close frame, is still being sent to a stalled peer "
              "(buffers filled to the boundary values of the documented limits) - and of keep-alive histories that put the "
@@ -107,14 +116,20 @@ ASSUMPTIONS = [
     "the wire is judged only where the client stayed to read it",
     "ka: 0..2 ordinary requests before the upgrade stand for any number; when the limit ends the connection before "
     "the upgrade can be sent nothing is judged",
+    "configuration axis: field names are case-insensitive (RFC 7230 3.2) and neither h11_pass_raw_headers nor a "
+    "server_names list naming the handshake's host is a reason to treat a handshake differently: verdicts and rendering "
+    "demands are those of the default configuration",
 ]
 BOUNDS_DOC = {"quick": "hs1/hs2/off full products; decision sequences depth<=3 sends; race M<=1,S<=2; hswin 3 accept kinds "
                        "x 6-7 closing events x 2 timings at quiescence; clwin 2 close codes x 1-6 filler sizes x 5-6 closing "
-                       "events x 2 timings at quiescence; ka k<=2 x 3 limits x 3 accept kinds",
+                       "events x 2 timings at quiescence; ka k<=2 x 3 limits x 3 accept kinds; configuration axis: hs1 sub-product "
+                       "4 x 4 x 140 under raw headers x 3 spellings (+ the websocket row under server_names / both), ka and "
+                       "all offer variants under raw headers, decision sequences depth<=2 sends under raw / raw + server_names",
               "thorough": "hs1/hs2/off full products; decision sequences depth<=5 sends; race M<=2,S<=3, trio R<=1; hswin "
                           "6 accept/offer kinds x 6-7 closing events x 2 timings, events also injected mid-flight M<=2 "
                           "for the plain accept, M<=1 for the other accept kinds, none for the > 64 KiB response head (trio R<=1); "
-                          "clwin as quick plus events injected mid-flight M<=1 (trio R<=1); ka as quick"}
+                          "clwin as quick plus events injected mid-flight M<=1 (trio R<=1); ka as quick; configuration "
+                          "axis as quick"}
 BUDGET = {"quick": 300, "thorough": 1150}
 
 ENGINES = ("asyncio", "trio")
@@ -330,12 +345,37 @@ def make_client(world: Any, k: int, opts: dict) -> C11Client:
     return C11Client(opts)
 
 
-def h1_handshake(method: bytes, version: bytes, lines: List[Tuple[bytes, Optional[List[bytes]]]]) -> Tuple[bytes, list]:
+def h1_handshake(method: bytes, version: bytes, lines: List[Tuple[bytes, Optional[List[bytes]]]],
+                 spell: Optional[Callable[[bytes], bytes]] = None) -> Tuple[bytes, list]:
+    """spell: how the client writes the field names (None: as the RFCs print them)."""
     hs = []
     for name, vals in lines:
         for v in (vals or []):
             hs.append((name, v))
-    return h1_request(method, b"/w", hs, version=version), hs
+    if spell is None:
+        return h1_request(method, b"/w", hs, version=version), hs
+    hs = [(spell(n), v) for n, v in hs]
+    return h1_request(method, b"/w", [(spell(b"Host"), b"hypercorn")] + hs, version=version, host=None), hs
+
+
+# ---------------------------------------------------------------------------------------------
+# configuration axis: a scenario whose last parameter is "cfg:<configuration>/<spelling>" runs under that non-default
+# configuration with the client writing the handshake's field names in that spelling.  Field names are case-insensitive
+# (RFC 7230 3.2) and neither option is mentioned by RFC 6455 / the property: the reference verdicts and the rendering
+# demands are those of the default configuration.
+#   raw      h11_pass_raw_headers = True (the stream is handed the names as the client spelt them)
+#   sn       server_names = [the host the handshakes name]
+CFGS: Dict[str, dict] = {
+    "raw": {"h11_pass_raw_headers": True},
+    "sn": {"server_names": ["hypercorn"]},
+    "raw+sn": {"h11_pass_raw_headers": True, "server_names": ["hypercorn"]},
+}
+SPELL: Dict[str, Optional[Callable[[bytes], bytes]]] = {"rfc": None, "lower": bytes.lower, "upper": bytes.upper}
+
+
+def cfg_tag(params: tuple) -> Optional[str]:
+    last = params[-1]
+    return last[4:] if isinstance(last, str) and last.startswith("cfg:") else None
 
 
 # ---------------------------------------------------------------------------------------------
@@ -346,6 +386,14 @@ def build(params: tuple, pick: Callable[[int, str], int]) -> tuple:
     family, engine = params[0], params[1]
     case: Dict[str, Any] = {"family": family}
     config: Dict[str, Any] = {}
+    spell = None
+    tag = cfg_tag(params)
+    if tag is not None:
+        params = params[:-1]
+        cfgname, spelling = tag.split("/")
+        config.update(CFGS[cfgname])
+        spell = SPELL[spelling]
+        case["cfg"] = tag
     sources: List[tuple]
     midflight = False
     if family == "hs1":
@@ -355,7 +403,7 @@ def build(params: tuple, pick: Callable[[int, str], int]) -> tuple:
         method = METHODS[pick(len(METHODS), "method")]
         httpv = HTTPV[pick(len(HTTPV), "httpv")]
         req, hs = h1_handshake(method, httpv, [(b"Upgrade", upg), (b"Connection", con), (b"Sec-WebSocket-Key", key),
-                                               (b"Sec-WebSocket-Version", ver)])
+                                               (b"Sec-WebSocket-Version", ver)], spell)
         case.update(carrier="ws/h1", method=method, httpv=httpv, headers=hs, keys=key or [])
         conn = {"carrier": "ws/h1", "methods": [method]}
         sources = [("client", [("data", 0, req), ("eof", 0)])]
@@ -450,7 +498,7 @@ def build(params: tuple, pick: Callable[[int, str], int]) -> tuple:
         if carrier == "ws/h1":
             req, hs = h1_handshake(b"GET", b"1.1", [(b"Upgrade", [b"websocket"]), (b"Connection", [b"Upgrade"]),
                                                      (b"Sec-WebSocket-Key", [KEY]), (b"Sec-WebSocket-Version", [b"13"])]
-                                   + [(n, [v]) for n, v in extra1])
+                                   + [(n, [v]) for n, v in extra1], spell)
             conn = {"carrier": "ws/h1", "deflate": ext}
             client: List[tuple] = [("data", 0, req)]
             if family == "ka":
@@ -542,9 +590,28 @@ def scenarios(tier: str) -> List[Any]:
             for c in range(len(CON)):
                 out.append(("hs1", e, u, c))
         out.append(("hs2", e))
+        # configuration axis (HTTP/1.1 carrier: that is where the options act): a sub-product of hs1 - Upgrade {websocket,
+        # WebSocket, foo, "websocket, foo"} x Connection {Upgrade, upgrade, keep-alive, "keep-alive, Upgrade"} x every key /
+        # version / method / HTTP version - under raw headers with the names in RFC / lower / upper case; the plain
+        # Upgrade: websocket row also under server_names and under both
+        for u in (1, 2, 3, 5):
+            for c in (1, 2, 3, 6):
+                for sp in ("rfc", "lower", "upper"):
+                    out.append(("hs1", e, u, c, f"cfg:raw/{sp}"))
+                if u == 1:
+                    out.append(("hs1", e, u, c, "cfg:raw+sn/rfc"))
+                    out.append(("hs1", e, u, c, "cfg:sn/upper"))
         for k in (0, 1, 2):
             for delta in (0, 1, 2):
                 out.append(("ka", e, "ws/h1", k, delta))
+                out.append(("ka", e, "ws/h1", k, delta, "cfg:raw/rfc"))
+        for si in range(len(SUBV)):  # offers: the token-list headers are looked up by name as well
+            for ei in range(len(EXTV)):
+                for tag in ("cfg:raw/rfc", "cfg:raw+sn/upper"):
+                    out.append(("off", e, "ws/h1", si, ei, tag))
+        for seq in sequences(2):  # decisions: every program of <= 2 sends, client offers subprotocols + deflate
+            for tag in ("cfg:raw/rfc", "cfg:raw+sn/lower"):
+                out.append(("dec", e, "ws/h1", "sub+ext", seq, tag))
         seqs = sequences(3 if tier == "quick" else 5)
         for carrier in ("ws/h1", "ws/h2"):
             for offer in OFFERS:
